@@ -1,0 +1,20 @@
+//go:build !verif
+// +build !verif
+
+package raft
+
+import "time"
+
+// Verification hooks. Without the "verif" build tag every hook is an empty
+// function (inlined away); see verif_on.go for the instrumented build.
+
+func verifIdle(r *Raft)                                       {}
+func verifFSM(fsm *stateMachine)                              {}
+func verifTimer(t *safeTimer, d time.Duration) time.Duration  { return d }
+func verifReplTakeover(r *replication, req *appendReq) bool   { return false }
+func verifReplEvent(r *replication, name string, a, b uint64) {}
+func verifSpawn(r *Raft, kind string)                         {}
+func verifDone(r *Raft, kind string)                          {}
+func verifPoint(owner interface{}, name string)               {}
+func verifPointTask(owner interface{}, name string, t *task)  {}
+func verifReply(t *task, result interface{})                  {}
